@@ -127,7 +127,7 @@ class Recorder:
         self.tk = ticks
         self.cls_idx = {c: k + 1 for k, c in enumerate(class_names)}
         self.steps = []
-        self.nrec = {}  # id -> number of data records already reported
+        self.recseq = []  # data records appended since the last event, in order
         self.inds = {}  # id -> Individual (every individual ever seen)
 
     def ci(self, name):
@@ -306,6 +306,13 @@ def instrument_routers(R):
 
 
 def make_individual_class(R, base):
+    class RecList(list):
+        """data_records list that remembers the global order of appends"""
+
+        def append(self, r):
+            list.append(self, r)
+            R.recseq.append(r)
+
     class RecIndividual(base):
         def __setattr__(self, name, value):
             if name == "service_start_date" and value is not False:
@@ -315,6 +322,8 @@ def make_individual_class(R, base):
                     sid = getattr(srv, "id_number", 0)
                 R.step("start", n=iv(self.__dict__.get("node", False)), i=self.__dict__.get("id_number", 0),
                        s=sid, x=R.tk(value, "ss"))
+            elif name == "data_records" and type(value) is list:
+                value = RecList(value)
             object.__setattr__(self, name, value)
     return RecIndividual
 
@@ -479,14 +488,8 @@ def project(R):
 
 
 def new_records(R):
-    """records appended since the last call, in customer-id order then record order"""
-    out = []
-    for i in sorted(R.inds):
-        ind = R.inds[i]
-        k = R.nrec.get(i, 0)
-        recs = ind.data_records
-        if len(recs) > k:
-            for r in recs[k:]:
-                out.append(proj_rec(R, r))
-            R.nrec[i] = len(recs)
+    """records appended since the last call, in the order the engine appended them"""
+    seq = R.recseq
+    out = [proj_rec(R, r) for r in seq]
+    del seq[:]
     return out
